@@ -97,14 +97,24 @@ func ParseDeviceCodeClientSecret(wwwAuthenticate string) string {
 // WWW-Authenticate header value. Returns an empty string if not found.
 func parseQuotedParam(header, param string) string {
 	key := param + `="`
-	idx := strings.Index(header, key)
-	if idx == -1 {
-		return ""
+	for from := 0; from < len(header); {
+		idx := strings.Index(header[from:], key)
+		if idx == -1 {
+			return ""
+		}
+		idx += from
+		// Only a whole parameter name counts: it starts the list or follows a
+		// separator. Without this, looking up client_id would also match the
+		// tail of device_code_client_id and return that parameter's value.
+		if idx == 0 || header[idx-1] == ' ' || header[idx-1] == ',' {
+			rest := header[idx+len(key):]
+			end := strings.Index(rest, `"`)
+			if end == -1 {
+				return ""
+			}
+			return rest[:end]
+		}
+		from = idx + 1
 	}
-	rest := header[idx+len(key):]
-	end := strings.Index(rest, `"`)
-	if end == -1 {
-		return ""
-	}
-	return rest[:end]
+	return ""
 }
